@@ -3,6 +3,7 @@
 From Coq Require Import List Ascii Bool Arith Relations.
 From Coq Require String.
 Import String.StringSyntax.
+From DT Require Import PyAst Locate C15Spec LocateFacts RewriteFacts C15Facts SyncLocate.
 From DT Require Import PyStr Sexp PyVal PureUtils FS Sync Cli PyStrFacts FSFacts SyncFacts CliFacts.
 Import ListNotations.
 
@@ -88,3 +89,93 @@ Theorem C11_replaced_keeps_others :
       parse_file file content' = Ok t' /\ others search t' = others search t.
 Proof. exact conform_replaced_keeps_others. Qed.
 Print Assumptions C11_replaced_keeps_others.
+
+(* ---- the tree layer instantiated with the Locate model (proofs/SyncLocate.v, from the C15 theorems) ---- *)
+(* the frame law discharged for RewriteAtQuery: every tree, search and replacement node, no guard (reference = tree before) *)
+Theorem C11_locate_rewrite_frame :
+    REWRITE_FRAME_REF_law anode amodule astmt loc_rewrite others_ref.
+Proof. exact loc_rewrite_frame. Qed.
+Print Assumptions C11_locate_rewrite_frame.
+
+(* the abstract theorem with the tree before as reference *)
+Theorem C11_replaced_keeps_others_ref :
+    forall (node tree irT opts X : Type) (emit_k : kind -> irT -> opts -> outcome node)
+      (parse_file : path -> bytes -> outcome tree) (find : list str -> tree -> option node)
+      (rewrite : list str -> node -> tree -> tree * bool) (cmp : node -> node -> bool)
+      (render_node : node -> outcome bytes) (render_tree : tree -> outcome bytes)
+      (opts_of : option node -> list str -> kind -> opts) (type_ok : kind -> node -> bool)
+      (others : tree -> list str -> tree -> list X),
+    REWRITE_FRAME_REF_law node tree X rewrite others ->
+    RENDER_PARSE_law tree parse_file render_tree ->
+    forall (fs : fsys) (file : path) (search : list str) (k : kind) (ir : irT) 
+      (f : fault) (fs' : fsys) (pr : list str) (content : bytes) (t : tree) 
+      (o : node),
+    conform emit_k parse_file find rewrite cmp render_node render_tree opts_of type_ok fs file search
+      k ir f = (fs', Ok true, pr) ->
+    fs_get file fs = Some content ->
+    parse_file file content = Ok t ->
+    find search t = Some o ->
+    exists (content' : bytes) (t' : tree) (n : node),
+      fs_get file fs' = Some content' /\
+      parse_file file content' = Ok t' /\
+      emit_k k ir (opts_of (Some o) search k) = Ok n /\
+      rewrite search n t = (t', true) /\ others t search t' = others t search t.
+Proof. exact conform_replaced_keeps_others_ref. Qed.
+Print Assumptions C11_replaced_keeps_others_ref.
+
+(* over the Locate layer: a replacement keeps every other top-level statement; only RENDER_PARSE is assumed *)
+Theorem C11_sync_replace_keeps_other_statements :
+    forall (irT opts : Type) (emit_k : kind -> irT -> opts -> outcome anode)
+      (parse_file : path -> bytes -> outcome amodule) (cmp : anode -> anode -> bool)
+      (render_node : anode -> outcome bytes) (render_tree : amodule -> outcome bytes)
+      (opts_of : option anode -> list str -> kind -> opts) (type_ok : kind -> anode -> bool),
+    RENDER_PARSE_law amodule parse_file render_tree ->
+    forall (fs : fsys) (file : path) (search : list str) (k : kind) (ir : irT) 
+      (f : fault) (fs' : fsys) (pr : list str) (content : bytes) (t : amodule) 
+      (o : anode),
+    conform emit_k parse_file loc_find loc_rewrite cmp render_node render_tree opts_of type_ok fs
+      file search k ir f = (fs', Ok true, pr) ->
+    fs_get file fs = Some content ->
+    parse_file file content = Ok t ->
+    loc_find search t = Some o ->
+    exists (content' : bytes) (t' : amodule),
+      fs_get file fs' = Some content' /\
+      parse_file file content' = Ok t' /\ others_ref t search t' = others_ref t search t.
+Proof. exact sync_replace_keeps_other_statements. Qed.
+Print Assumptions C11_sync_replace_keeps_other_statements.
+
+(* inside rw_guard_C15 the one position that changed is the position of resolve *)
+Theorem C11_sync_replace_preserves_other_statements :
+    forall (irT opts : Type) (emit_k : kind -> irT -> opts -> outcome anode)
+      (parse_file : path -> bytes -> outcome amodule) (cmp : anode -> anode -> bool)
+      (render_node : anode -> outcome bytes) (render_tree : amodule -> outcome bytes)
+      (opts_of : option anode -> list str -> kind -> opts) (type_ok : kind -> anode -> bool),
+    RENDER_PARSE_law amodule parse_file render_tree ->
+    forall (fs : fsys) (file : path) (search : list str) (k : kind) (ir : irT) 
+      (f : fault) (fs' : fsys) (pr : list str) (content : bytes) (m : module) 
+      (o : anode),
+    conform emit_k parse_file loc_find loc_rewrite cmp render_node render_tree opts_of type_ok fs
+      file search k ir f = (fs', Ok true, pr) ->
+    fs_get file fs = Some content ->
+    parse_file file content = Ok (annotate m) ->
+    loc_find search (annotate m) = Some o ->
+    rw_guard_C15 m search = true ->
+    exists (content' : bytes) (t' : amodule) (p : Locate.path) (pn : pnode) 
+    (r : anode),
+      fs_get file fs' = Some content' /\
+      parse_file file content' = Ok t' /\
+      resolve search m = Some (p, pn) /\
+      replaced_first search r p (annotate m) t' /\
+      others_ref (annotate m) search t' = others_ref (annotate m) search (annotate m).
+Proof. exact sync_replace_preserves_other_statements. Qed.
+Print Assumptions C11_sync_replace_preserves_other_statements.
+
+(* a FunctionDef statement is never swapped for the replacement node *)
+Theorem C11_visit_keeps_function :
+    forall (q : loc) (st : rw_state) (i : Locate.path) (l : option loc) (n : str) 
+      (a : aarguments) (b : list astmt) (d : list expr) (r : option expr) 
+      (s' : astmt) (st' : rw_state),
+    visit_stmt q st (AFunc i l n a b d r) = Ok (s', st') ->
+    exists a' : aarguments, s' = AFunc i l n a' b d r.
+Proof. exact visit_keeps_function. Qed.
+Print Assumptions C11_visit_keeps_function.
